@@ -394,20 +394,26 @@ Proof.
   rewrite Ho. step_simpl. rewrite Hs. reflexivity.
 Qed.
 
+Lemma keep_bottom_all : forall (s : list value), keep_bottom (lenN s) s = s.
+Proof.
+  intro s. unfold keep_bottom, lenN. rewrite Nat2N.id, Nat.sub_diag. reflexivity.
+Qed.
+
 Lemma exec_iter_reset : forall k main ip m,
   (lenN main <=? ip) = false -> polls m = None -> byte_at main ip = Some OpIterationReset ->
   ex (S k) main ip m =
   match stk m with
-  | [] => (OErr EInternal, set_env m (env_push (menv m)))
+  | [] => (OErr EInternal, set_env m (env_push (menv m) (lenN (stk m))))
   | v :: s =>
-      if iterable v then ex k main (ip + 1) (mkM (VIter v 0 :: s) (env_push (menv m)) (trace m) (polls m))
-      else (OErr EScript, mkM s (env_push (menv m)) (trace m) (polls m))
+      if iterable v then ex k main (ip + 1) (mkM (VIter v 0 :: s) (env_push (menv m) (lenN (stk m))) (trace m) (polls m))
+      else (OErr EScript, mkM s (env_push (menv m) (lenN (stk m))) (trace m) (polls m))
   end.
 Proof. intros k main ip m Hl Hp Hb. cbn [exec]. rewrite Hl, Hp, Hb. step_simpl. rewrite ?Hp. reflexivity. Qed.
 
-Lemma exec_iter_next : forall k main ip m var idx it s,
+(* the body's residue `rest` is cut back to the height the loop remembered: `it :: s` *)
+Lemma exec_iter_next : forall k main ip m var idx rest it s,
   (lenN main <=? ip) = false -> polls m = None -> byte_at main ip = Some OpIterationNext ->
-  stk m = VStr var :: VStr idx :: it :: s ->
+  stk m = VStr var :: VStr idx :: rest -> drop_residue (menv m) rest = it :: s ->
   ex (S k) main ip m =
   match it with
   | VIter v off =>
@@ -426,18 +432,18 @@ Lemma exec_iter_next : forall k main ip m var idx it s,
   | _ => if iterable it then (OErr ENeedOracle, m) else (OErr EScript, m)
   end.
 Proof.
-  intros k main ip m var idx it s Hl Hp Hb Hs. cbn [exec]. rewrite Hl, Hp, Hb. step_simpl.
-  rewrite Hs. cbn [name_of inspect].
+  intros k main ip m var idx rest it s Hl Hp Hb Hs Hd. cbn [exec]. rewrite Hl, Hp, Hb. step_simpl.
+  rewrite Hs, Hd. cbn [name_of inspect].
   rewrite ?Hp. destruct it; reflexivity.
 Qed.
 
-Lemma exec_iter_next_short : forall k main ip m a b,
+Lemma exec_iter_next_short : forall k main ip m a b rest,
   (lenN main <=? ip) = false -> polls m = None -> byte_at main ip = Some OpIterationNext ->
-  stk m = [a; b] ->
+  stk m = a :: b :: rest -> drop_residue (menv m) rest = [] ->
   ex (S k) main ip m = (OErr EInternal, m).
 Proof.
-  intros k main ip m a b Hl Hp Hb Hs. cbn [exec]. rewrite Hl, Hp, Hb. step_simpl.
-  rewrite Hs. reflexivity.
+  intros k main ip m a b rest Hl Hp Hb Hs Hd. cbn [exec]. rewrite Hl, Hp, Hb. step_simpl.
+  rewrite Hs, Hd. reflexivity.
 Qed.
 
 Lemma exec_array_g : forall k main ip m arg,
@@ -1627,7 +1633,7 @@ Lemma run_foreach_head : forall pool funcs obj main L0 T i1 i2 idx ident rest M,
                    [OpIterationNext] ++ [OpJumpIfFalse; hi_byte T; lo_byte T] ++ rest) ->
   nthN pool i1 = Some (VStr idx) -> nthN pool i2 = Some (VStr ident) -> i1 < 65536 -> i2 < 65536 ->
   T < lenN main -> lenN main <= 65535 -> polls M = None ->
-  match stk M with
+  match drop_residue (menv M) (stk M) with
   | VIter it off :: s =>
       match iter_next o it off with
       | Ok (Some (x, k)) =>
@@ -1658,13 +1664,13 @@ Proof.
   set (M2 := push (push M (VStr idx)) (VStr ident)) in *.
   destruct (code_at_op1 _ _ _ _ A3) as [Hl3 Hb3].
   destruct (code_at_op3 _ _ _ _ _ _ A4) as (Hl4 & Hb4 & Ho4). rewrite hi_lo in Ho4 by lia.
-  destruct (stk M) as [|it0 s] eqn:Es.
+  assert (Hs2 : stk M2 = VStr ident :: VStr idx :: stk M) by reflexivity.
+  change (menv M) with (menv M2).
+  destruct (drop_residue (menv M2) (stk M)) as [|it0 s] eqn:Es.
   - eapply runs_then_fails; [exact R12|]. eapply fails_step. intro k.
-    eapply (exec_iter_next_short o pool funcs fns obj k main _ M2 (VStr ident) (VStr idx) Hl3 Hp Hb3).
-    unfold M2. cbn [push set_stk stk]. rewrite Es. reflexivity.
-  - assert (Hs2 : stk M2 = VStr ident :: VStr idx :: it0 :: s).
-    { unfold M2. cbn [push set_stk stk]. rewrite Es. reflexivity. }
-    pose proof (fun k => exec_iter_next o pool funcs fns obj k main _ M2 ident idx it0 s Hl3 Hp Hb3 Hs2) as St.
+    exact (exec_iter_next_short o pool funcs fns obj k main _ M2 (VStr ident) (VStr idx) (stk M) Hl3 Hp Hb3 Hs2 Es).
+  - pose proof (fun k => exec_iter_next o pool funcs fns obj k main _ M2 ident idx (stk M) it0 s Hl3 Hp Hb3 Hs2 Es) as St.
+    change (menv M2) with (menv M).
     destruct it0 as [z|fl|st|b| | |re|l|l|it off];
       try (cbn [iterable]; eapply runs_then_fails; [exact R12|]; eapply fails_step; exact St);
       try exact I.
@@ -1748,7 +1754,7 @@ Proof.
     destruct fuel as [|f]; [exact I|]. unfold StmtProofs.sp_x.
     change (sx o fns obj (S f) (EForeach idx ident v body) m) with
       (then_ (sx o fns obj f v m) (fun m1 =>
-        let e1 := env_push (menv m1) in
+        let e1 := env_push (menv m1) (lenN (stk m1)) in
         match stk m1 with
         | [] => XErr EInternal (set_menv m1 e1)
         | it :: s =>
@@ -1797,10 +1803,12 @@ Proof.
     assert (Hipe : ipe = T + 1) by (unfold ipe; clear - HT HL0; pos).
     clearbody ipe.
     (* the loop *)
-    assert (Loop : forall n it off m0, polls m0 = None ->
-              ok o pool funcs fns obj main L0 (set_stk m0 (VIter it off :: stk m0))
-                 (sforeach o fns obj n idx ident it off body m0) ipe).
-    { induction n as [|n IH]; intros it off m0 Hp0; [exact I|].
+    assert (Loop : forall n M it off s, polls M = None ->
+              drop_residue (menv M) (stk M) = VIter it off :: s ->
+              ok o pool funcs fns obj main L0 M
+                 (sforeach o fns obj n idx ident it off body (set_stk M s)) ipe).
+    { induction n as [|n IH]; intros M it off s Hp0 HdM; [exact I|].
+      set (m0 := set_stk M s).
       change (sforeach o fns obj (S n) idx ident it off body m0) with
         (match iter_next o it off with
          | Err x => XErr x m0
@@ -1809,7 +1817,7 @@ Proof.
              let e2 := match idx with [] => e1 | _ => env_declare e1 idx k end in
              then_ (sblock o fns obj n body (mkM (VIter it (off + 1) :: stk m0) e2 (trace m0) (polls m0)))
                (fun m1 =>
-                  match stk m1 with
+                  match drop_residue (menv m1) (stk m1) with
                   | VIter it' off' :: s' => sforeach o fns obj n idx ident it' off' body (set_stk m1 s')
                   | other :: s' => if iterable other then XErr ENeedOracle (set_stk m1 s')
                                    else XErr EScript (set_stk m1 s')
@@ -1821,10 +1829,9 @@ Proof.
              | None => XErr EScript m0
              end
          end).
-      pose proof (run_foreach_head pool funcs obj main L0 T i1 i2 idx ident _
-                    (set_stk m0 (VIter it off :: stk m0))
+      pose proof (run_foreach_head pool funcs obj main L0 T i1 i2 idx ident _ M
                     (code_at_eq _ _ _ _ AH (eq_sym HL0)) Hp1 Hp2 Hi1 Hi2 HTm Hlen Hp0) as Hd.
-      cbn [set_stk stk menv trace polls] in Hd.
+      rewrite HdM in Hd. unfold m0. cbn [set_stk stk menv trace polls].
       destruct (iter_next o it off) as [[[x k]|]|x] eqn:En.
       - cbv zeta in Hd |- *. eapply ok_prepend; [exact Hd|].
         eapply ok_then.
@@ -1834,14 +1841,12 @@ Proof.
           * eapply (run_jump o pool funcs fns obj main _ L0); [at_pos B5|exact Hpm1|lia|exact Hlen].
           * pose proof (run_foreach_head pool funcs obj main L0 T i1 i2 idx ident _ m1
                           (code_at_eq _ _ _ _ AH (eq_sym HL0)) Hp1 Hp2 Hi1 Hi2 HTm Hlen Hpm1) as Hd1.
-            destruct (stk m1) as [|other s'] eqn:Es1.
+            destruct (drop_residue (menv m1) (stk m1)) as [|other s'] eqn:Es1.
             -- apply ok_err. exact Hd1.
             -- destruct other as [z|fl|st|b| | |re|l|l|it' off'];
                  try (cbn [iterable] in Hd1 |- *; first [exact I | apply ok_err; exact Hd1]).
-               replace m1 with (set_stk (set_stk m1 s') (VIter it' off' :: stk (set_stk m1 s'))).
-               2:{ destruct m1; cbn in *. subst. reflexivity. }
-               apply IH. exact Hpm1.
-      - destruct (env_pop (menv m0)) as [e1|].
+               apply IH; [exact Hpm1|exact Es1].
+      - destruct (env_pop (menv M)) as [e1|].
         + apply ok_normal; [exact Hp0|].
           eapply runs_to_trans; [exact Hd|].
           eapply rt_pos; [eapply run_ph; [exact B6|exact Hp0]|lia|lia].
@@ -1856,7 +1861,10 @@ Proof.
       * eapply ok_fail_step. exact St.
       * destruct (iterable it) eqn:Eit.
         -- eapply ok_step; [exact St|]. eapply ok_ip; [|exact HL0].
-           exact (Loop f it 0 (mkM s (env_push (menv m1)) (trace m1) (polls m1)) Hpm1).
+           refine (Loop f (mkM (VIter it 0 :: s) (env_push (menv m1) (lenN (it :: s))) (trace m1) (polls m1))
+                        it 0 s Hpm1 _).
+           unfold drop_residue, env_mark. cbn [env_push scopes menv stk].
+           change (lenN (it :: s)) with (lenN (VIter it 0 :: s)). apply keep_bottom_all.
         -- eapply ok_fail_step. exact St.
 Qed.
 
